@@ -219,7 +219,8 @@ def cli(x, p):
     from pico8.lua import lua
     free = p['free']
     out_exists = x.bool('out_exists')
-    files = {'/w/a.p8': cart_text(11), '/w/b.p8': cart_text(23),
+    # (cart names may carry dots of their own: sprites.v2.p8, game.rc1.p8)
+    files = {'/w/a.v2.p8': cart_text(11), '/w/b.p8': cart_text(23),
              '/w/m.lua': b'v=99\n', '/w/notes.txt': b'hello'}
     prev = None
     if out_exists:
@@ -240,7 +241,7 @@ def cli(x, p):
             opts.append('luafile')
         c = x.choice('src_' + sec, opts)
         if c in ('a', 'b', 'luafile'):
-            fn = {'a': '/w/a.p8', 'b': '/w/b.p8', 'luafile': '/w/m.lua'}[c]
+            fn = {'a': '/w/a.v2.p8', 'b': '/w/b.p8', 'luafile': '/w/m.lua'}[c]
             if fsec == sec and fault == 'missing':
                 fn = '/w/nothere.p8'
                 will_fail = True
@@ -286,14 +287,14 @@ def cli(x, p):
     if exc is not None or rc != 0:
         return
     x.check('only OUT is written', clikit.only_changed(fs, '/w/out.p8'))
-    for n in ('/w/a.p8', '/w/b.p8', '/w/m.lua'):
+    for n in ('/w/a.v2.p8', '/w/b.p8', '/w/m.lua'):
         x.check('sources are not modified', fs.files[n] == files[n])
 
     def load(data):
         from pico8.game.formatter.p8 import P8Formatter
         return P8Formatter.from_file(hx.MemStream(data), filename='x.p8')
     got = load(fs.files['/w/out.p8'])
-    carts = {'a': load(files['/w/a.p8']), 'b': load(files['/w/b.p8']),
+    carts = {'a': load(files['/w/a.v2.p8']), 'b': load(files['/w/b.p8']),
              'empty': load(empty_text())}
     carts['prev'] = load(prev) if prev is not None else carts['empty']
     for sec in SECTIONS:
